@@ -114,7 +114,7 @@ def drvCfg (ms : List Member) : Cfg Unit :=
 
 def showSess (before after : Sess) : String :=
   let new := after.replies.drop before.replies.length
-  "replies=" ++ ",".intercalate (new.map hexOf) ++ " waiting=" ++ bit after.waiting.isSome ++ " ended=" ++ bit after.ended
+  "replies=" ++ ",".intercalate (new.map fun r => "x" ++ hexOf r) ++ " waiting=" ++ bit after.waiting.isSome ++ " ended=" ++ bit after.ended
     ++ " inbox=" ++ toString after.inbox.length ++ " buf=" ++ toString after.buf.length
 
 def showSrv (s : Srv) : String :=
